@@ -1096,6 +1096,13 @@ CORE_FN_FIXED = [
 ] + CORE_CLOS_FIXED + CORE_HEAP_FIXED + CORE_BUILTIN_FIXED
 
 
+# containers nested deeper than the reference semantics' structural view (64): it must not commit on == / + / display there
+DEEP_EQ = ["let obs = [];\nlet a = [1]; let b = [2]; let i = 0;\nwhile i < 70 { a = [a]; b = [b]; i = i + 1; }\npush(obs, a == b);\npush(obs, a != b);\n0\n",
+           "let obs = [];\nlet a = [1]; let i = 0;\nwhile i < 64 { a = [a]; i = i + 1; }\nlet c = a + [a];\npush(obs, len(c));\nif a { push(obs, 1); }\n0\n",
+           "let obs = [];\nlet m = map {1: 1}; let i = 0;\nwhile i < 66 { m = map {1: m}; i = i + 1; }\npush(obs, m == m);\n0\n",
+           "let obs = [];\nlet a = [1]; let b = [1]; let i = 0;\nwhile i < 30 { a = [a]; b = [b]; i = i + 1; }\npush(obs, a == b);\n0\n"]
+
+
 def alias_programs(rng, n):
     """arrays and maps are shared by reference, `+` builds a NEW array whatever its operands are: mutate one side, observe both"""
     empties = ["[]", "e()", "rest([1])", "([] + [])", "z"]
@@ -1117,6 +1124,8 @@ def sources(ctx):
     tags = []
     for s in alias_programs(rng, ctx.scale(60, 3000)):
         out.append(s); tags.append("alias")
+    for s in DEEP_EQ:
+        out.append(s); tags.append("deep-eq")
     for s in gen_lang.SPECIALS:
         out.append(s); tags.append("special")
     for s in gen_lang.FAULTY:
@@ -1134,8 +1143,11 @@ def cases(ctx):
     lines = lang_lines(ctx, srcs)
     out = [Case(l, (t,), extra={"src": s}) for l, t, s in zip(lines, tags, srcs)]
     # the VM model on the real compiler's bytecode (correspondence of the VM model)
-    vl = vmrun_lines(ctx, srcs)
-    out += [Case(l, ("vm-" + t,), extra={"src": s}) for l, t, s in zip(vl, tags, srcs)]
+    # (the VM model's structural view of containers is bounded at 64 levels — Deep.deep_eq_diverges in Props/FnVmHeap.lean states it —
+    # so the deeper-than-64 programs go through the reference semantics and the real pipeline only)
+    vsel = [k for k in range(len(srcs)) if tags[k] != "deep-eq"]
+    vl = vmrun_lines(ctx, [srcs[k] for k in vsel])
+    out += [Case(l, ("vm-" + tags[k],), extra={"src": srcs[k]}) for l, k in zip(vl, vsel)]
     # the core fragment: the functional compiler model must equal the real compiler byte for byte,
     # its machine the real VM, and both the reference evaluation (theorem compile_correct)
     csrcs = [core_program(ctx.rng, typed=(k % 2 == 0)) for k in range(ctx.scale(3000, 150000))]
